@@ -249,3 +249,561 @@ Proof.
   destruct (itoa n) as [|c r]; [exfalso; apply Hne; reflexivity|]. rewrite Hv.
   apply N.leb_le in Hn. rewrite Hn. reflexivity.
 Qed.
+
+(* ================================================================================================================ *)
+(* 3. parse_line_col = rfind, then a function of the text after the marker                                          *)
+(* ================================================================================================================ *)
+Definition plc_tail (m b : bytes) : option (N * N * bytes) :=
+  let n1 := count_digits b in
+  let r1 := skipn n1 b in
+  if negb (starts_with r1 COLM) then None else
+  let b2 := skipn (length COLM) r1 in
+  let n2 := count_digits b2 in
+  if (n2 <? length b2)%nat then None else
+  match usize_from_str (firstn n1 b) with
+  | None => None
+  | Some line =>
+    match usize_from_str (firstn n2 b2) with
+    | None => None
+    | Some column => Some (line, column, m)
+    end
+  end.
+
+Lemma rfind_some : forall s i, rfind s MARK = Some i ->
+  s = firstn i s ++ MARK ++ skipn (i + length MARK) s /\ (i + length MARK <= length s)%nat
+  /\ NoOcc MARK (skipn (S i) s).
+Proof.
+  intros s i H. unfold rfind in H. destruct (rfind_aux_some _ _ _ _ H) as (a & b & Hs & Hi & Hn).
+  cbn [Nat.add] in Hi. subst i. split; [|split].
+  - rewrite Hs at 1. rewrite Hs at 1. rewrite (firstn_at a (MARK ++ b) _ eq_refl). f_equal. f_equal.
+    rewrite Hs, app_assoc. symmetry. apply skipn_at. rewrite app_length. reflexivity.
+  - rewrite Hs, !app_length. lia.
+  - rewrite Hs. change (S (length a)) with (1 + length a)%nat. rewrite Nat.add_comm, skipn_add, (skipn_at a _ _ eq_refl).
+    apply (Hn 32 _). reflexivity.
+Qed.
+
+Lemma parse_line_col_tail : forall s,
+  parse_line_col s = match rfind s MARK with
+                     | None => None
+                     | Some i => plc_tail (firstn i s) (skipn (i + length MARK) s)
+                     end.
+Proof.
+  intros s. unfold parse_line_col. destruct (rfind s MARK) as [i|] eqn:Hr; [|reflexivity].
+  destruct (rfind_some s i Hr) as (_ & Hlen & _).
+  unfold plc_tail. set (b := skipn (i + length MARK) s).
+  set (n1 := count_digits b).
+  rewrite (skipn_add (i + length MARK) n1 s). fold b.
+  set (r1 := skipn n1 b).
+  destruct (starts_with r1 COLM) eqn:Hc; cbn [negb]; [|reflexivity].
+  rewrite (skipn_add (i + length MARK + n1) (length COLM) s), (skipn_add (i + length MARK) n1 s). fold b. fold r1.
+  set (b2 := skipn (length COLM) r1). set (n2 := count_digits b2).
+  assert (Hb : length b = (length s - (i + length MARK))%nat) by apply skipn_length.
+  assert (Hr1 : length r1 = (length b - n1)%nat) by apply skipn_length.
+  assert (Hn1 : (n1 <= length b)%nat) by apply count_digits_split.
+  assert (Hb2 : length r1 = (length COLM + length b2)%nat).
+  { rewrite (starts_with_true _ _ Hc) at 1. rewrite app_length. reflexivity. }
+  replace ((i + length MARK + n1 + length COLM + n2 <? length s)%nat) with ((n2 <? length b2)%nat)
+    by (destruct (n2 <? length b2)%nat eqn:E1; destruct (i + length MARK + n1 + length COLM + n2 <? length s)%nat eqn:E2; lia).
+  replace (i + length MARK + n1 - (i + length MARK))%nat with n1 by lia.
+  replace (i + length MARK + n1 + length COLM + n2 - (i + length MARK + n1 + length COLM))%nat with n2 by lia.
+  reflexivity.
+Qed.
+
+(* ---- the marker we look at is the last one: nothing that follows it can contain another ---------------------- *)
+Lemma NoOcc_nil : NoOcc MARK [].
+Proof. intros x b H. apply (f_equal (@length N)) in H. rewrite !app_length in H. cbn [length MARK] in H. lia. Qed.
+
+Lemma NoOcc_digits : forall d r, digits d -> NoOcc MARK r -> NoOcc MARK (d ++ r).
+Proof.
+  induction d as [|c d IH]; intros r Hd Hr; [exact Hr|].
+  apply digits_cons in Hd. destruct Hd as [Hc Hd]. cbn [app]. apply NoOcc_cons; [|apply IH; assumption].
+  unfold MARK. cbn [starts_with]. unfold is_digit in Hc. destruct (32 =? c) eqn:E; [lia|reflexivity].
+Qed.
+
+Lemma sw_sp_digits : forall d, digits d -> starts_with (32 :: d) MARK = false.
+Proof.
+  intros d Hd. unfold MARK. cbn [starts_with]. destruct d as [|c d]; [reflexivity|].
+  apply digits_cons in Hd. destruct Hd as [Hc _]. unfold is_digit in Hc. cbn [starts_with]. destruct (97 =? c) eqn:E; [lia|reflexivity].
+Qed.
+
+(* after the first byte of  " at line " ++ dl ++ " column " ++ dc  there is no further " at line " *)
+Lemma NoOcc_suffix : forall dl dc, digits dl -> digits dc ->
+  NoOcc MARK ([97;116;32;108;105;110;101;32] ++ dl ++ COLM ++ dc).
+Proof.
+  intros dl dc Hl Hc.
+  assert (Hdc : NoOcc MARK dc).
+  { rewrite <- (app_nil_r dc). apply NoOcc_digits; [exact Hc|exact NoOcc_nil]. }
+  assert (Hcol : NoOcc MARK (COLM ++ dc)).
+  { unfold COLM. cbn [app]. repeat (apply NoOcc_cons; [try reflexivity|]); [|exact Hdc].
+    apply sw_sp_digits. exact Hc. }
+  assert (Hl2 : NoOcc MARK (dl ++ COLM ++ dc)) by (apply NoOcc_digits; assumption).
+  cbn [app]. repeat (apply NoOcc_cons; [try reflexivity|]); [|exact Hl2].
+  - (* " " ++ dl ++ " column " ...: the byte after the space is a digit or the space of " column " *)
+    unfold MARK. cbn [starts_with]. destruct dl as [|c dl].
+    + reflexivity.
+    + apply digits_cons in Hl. destruct Hl as [Hc0 _]. unfold is_digit in Hc0. cbn [app starts_with].
+      destruct (97 =? c) eqn:E; [lia|reflexivity].
+Qed.
+
+Lemma rfind_marker : forall m dl dc, digits dl -> digits dc ->
+  rfind (m ++ MARK ++ dl ++ COLM ++ dc) MARK = Some (length m).
+Proof.
+  intros m dl dc Hl Hc. unfold rfind.
+  change (MARK ++ dl ++ COLM ++ dc) with (32 :: [97;116;32;108;105;110;101;32] ++ dl ++ COLM ++ dc).
+  rewrite (rfind_aux_last MARK m 32 _ O); [reflexivity| |apply NoOcc_suffix; assumption].
+  change (32 :: [97;116;32;108;105;110;101;32] ++ dl ++ COLM ++ dc) with (MARK ++ dl ++ COLM ++ dc). apply starts_with_app.
+Qed.
+
+Lemma swd_COLM : forall r, starts_with_digit (COLM ++ r) = false. Proof. reflexivity. Qed.
+
+Lemma plc_tail_shape : forall m dl dc, digits dl -> digits dc ->
+  plc_tail m (dl ++ COLM ++ dc) =
+    match usize_from_str dl, usize_from_str dc with
+    | Some l, Some c => Some (l, c, m)
+    | _, _ => None
+    end.
+Proof.
+  intros m dl dc Hl Hc. unfold plc_tail.
+  rewrite (count_digits_app dl (COLM ++ dc) Hl (swd_COLM dc)).
+  rewrite (skipn_at dl _ _ eq_refl), (firstn_at dl _ _ eq_refl).
+  rewrite starts_with_app. cbn [negb]. rewrite (skipn_at COLM dc _ eq_refl).
+  assert (Hn2 : count_digits dc = length dc).
+  { rewrite <- (app_nil_r dc) at 1. apply count_digits_app; [exact Hc|reflexivity]. }
+  rewrite Hn2, Nat.ltb_irrefl, firstn_all.
+  destruct (usize_from_str dl); [|reflexivity]. destruct (usize_from_str dc); reflexivity.
+Qed.
+
+(* THE SHAPE LEMMA: whatever m is (it may contain markers of its own) *)
+Theorem parse_line_col_shape : forall m dl dc, digits dl -> digits dc ->
+  parse_line_col (m ++ MARK ++ dl ++ COLM ++ dc) =
+    match usize_from_str dl, usize_from_str dc with
+    | Some l, Some c => Some (l, c, m)
+    | _, _ => None
+    end.
+Proof.
+  intros m dl dc Hl Hc. rewrite parse_line_col_tail, (rfind_marker m dl dc Hl Hc).
+  rewrite (firstn_at m _ _ eq_refl).
+  replace (skipn (length m + length MARK) (m ++ MARK ++ dl ++ COLM ++ dc)) with (dl ++ COLM ++ dc).
+  - apply plc_tail_shape; assumption.
+  - rewrite (app_assoc m MARK). symmetry. apply skipn_at. rewrite app_length. reflexivity.
+Qed.
+
+(* ---- soundness --------------------------------------------------------------------------------------------- *)
+Lemma plc_tail_sound : forall m b l c m', plc_tail m b = Some (l, c, m') ->
+  exists dl dc, b = dl ++ COLM ++ dc /\ digits dl /\ digits dc
+                /\ usize_from_str dl = Some l /\ usize_from_str dc = Some c /\ m' = m.
+Proof.
+  intros m b l c m' H. unfold plc_tail in H.
+  destruct (count_digits_split b) as (Hb & Hd1 & _ & _).
+  set (n1 := count_digits b) in *. set (r1 := skipn n1 b) in *.
+  destruct (starts_with r1 COLM) eqn:Hc; cbn [negb] in H; [|discriminate].
+  apply starts_with_true in Hc.
+  set (b2 := skipn (length COLM) r1) in *.
+  destruct (count_digits_split b2) as (Hb2 & Hd2 & _ & Hle).
+  set (n2 := count_digits b2) in *.
+  destruct (n2 <? length b2)%nat eqn:Hlt; [discriminate|].
+  assert (Hall : firstn n2 b2 = b2) by (apply firstn_all2; lia).
+  rewrite Hall in H, Hd2.
+  destruct (usize_from_str (firstn n1 b)) as [l0|] eqn:El; [|discriminate].
+  destruct (usize_from_str b2) as [c0|] eqn:Ec; [|discriminate].
+  injection H as <- <- <-.
+  exists (firstn n1 b), b2. split; [rewrite <- Hc; exact Hb|]. auto.
+Qed.
+
+Theorem parse_line_col_sound : forall s l c m', parse_line_col s = Some (l, c, m') ->
+  exists dl dc, s = m' ++ MARK ++ dl ++ COLM ++ dc
+                /\ digits dl /\ dl <> [] /\ dval dl = l /\ l <= usize_max
+                /\ digits dc /\ dc <> [] /\ dval dc = c /\ c <= usize_max.
+Proof.
+  intros s l c m' H. rewrite parse_line_col_tail in H.
+  destruct (rfind s MARK) as [i|] eqn:Hr; [|discriminate].
+  destruct (rfind_some s i Hr) as (Hs & _ & _).
+  destruct (plc_tail_sound _ _ _ _ _ H) as (dl & dc & Hb & Hdl & Hdc & El & Ec & ->).
+  destruct (usize_from_str_some dl l Hdl El) as (Hl1 & Hl2 & Hl3).
+  destruct (usize_from_str_some dc c Hdc Ec) as (Hc1 & Hc2 & Hc3).
+  exists dl, dc. split; [rewrite Hs at 1; rewrite Hb; reflexivity|]. auto 10.
+Qed.
+
+(* exact characterisation of what parse_line_col accepts *)
+Theorem parse_line_col_iff : forall s l c m',
+  parse_line_col s = Some (l, c, m') <->
+  exists dl dc, s = m' ++ MARK ++ dl ++ COLM ++ dc
+                /\ digits dl /\ dl <> [] /\ dval dl = l /\ l <= usize_max
+                /\ digits dc /\ dc <> [] /\ dval dc = c /\ c <= usize_max.
+Proof.
+  intros s l c m'. split; [apply parse_line_col_sound|].
+  intros (dl & dc & -> & Hdl & Hnl & Hvl & Hl & Hdc & Hnc & Hvc & Hc).
+  rewrite (parse_line_col_shape m' dl dc Hdl Hdc), (usize_from_str_digits dl Hdl), (usize_from_str_digits dc Hdc).
+  destruct dl as [|x dl]; [exfalso; apply Hnl; reflexivity|]. destruct dc as [|y dc]; [exfalso; apply Hnc; reflexivity|].
+  rewrite Hvl, Hvc. apply N.leb_le in Hl, Hc. rewrite Hl, Hc. reflexivity.
+Qed.
+
+Theorem parse_line_col_none_if_no_marker : forall s, (forall a b, s <> a ++ MARK ++ b) -> parse_line_col s = None.
+Proof.
+  intros s H. rewrite parse_line_col_tail. unfold rfind.
+  assert (E : rfind_aux MARK s O = None) by (apply rfind_aux_none; exact H). rewrite E. reflexivity.
+Qed.
+
+(* ================================================================================================================ *)
+(* 4. Display / make_error / fix_position                                                                           *)
+(* ================================================================================================================ *)
+
+(* An Error with a position, printed and passed through de::Error::custom (erased-serde, nested deserializers, ...),
+   keeps message and position.  No condition on m: m may itself contain or end in " at line 5 column 6". *)
+Theorem display_parse_roundtrip : forall m l c, 1 <= l -> l <= usize_max -> c <= usize_max ->
+  parse_line_col (display (mkError m l c)) = Some (l, c, m).
+Proof.
+  intros m l c Hl1 Hl Hc. unfold display. cbn [e_line e_msg e_col].
+  destruct (l =? 0) eqn:E; [lia|].
+  destruct (itoa_spec l Hl) as (Hdl & _ & _). destruct (itoa_spec c Hc) as (Hdc & _ & _).
+  rewrite (parse_line_col_shape m _ _ Hdl Hdc), (usize_from_str_itoa l Hl), (usize_from_str_itoa c Hc). reflexivity.
+Qed.
+
+Theorem make_error_display : forall e, 1 <= e_line e -> e_line e <= usize_max -> e_col e <= usize_max ->
+  make_error (display e) = e.
+Proof.
+  intros [m l c] Hl1 Hl Hc. cbn [e_line e_col] in *. unfold make_error.
+  rewrite (display_parse_roundtrip m l c Hl1 Hl Hc). reflexivity.
+Qed.
+
+(* line = 0: Display prints the bare message (the column is not printed), so the round trip is the identity exactly
+   when the message is not itself of the accepted form (and the column was 0, as it is for every error the crate
+   builds with line 0: Error::io, make_error). *)
+Theorem make_error_display_line0 : forall m c, make_error (display (mkError m 0 c)) = make_error m.
+Proof. reflexivity. Qed.
+
+Theorem make_error_display_line0_iff : forall m, make_error (display (mkError m 0 0)) = mkError m 0 0 <-> parse_line_col m = None.
+Proof.
+  intros m. rewrite make_error_display_line0. unfold make_error. split.
+  - intros H. destruct (parse_line_col m) as [[[l c] m']|] eqn:E; [|reflexivity]. exfalso.
+    injection H as Hm Hl Hc. subst m' l c.
+    destruct (parse_line_col_sound _ _ _ _ E) as (dl & dc & Hs & _).
+    apply (f_equal (@length N)) in Hs. rewrite !app_length in Hs. cbn [length MARK] in Hs. lia.
+  - intros ->. reflexivity.
+Qed.
+
+Theorem display_make_error_none : forall s, parse_line_col s = None -> display (make_error s) = s.
+Proof. intros s H. unfold make_error. rewrite H. reflexivity. Qed.
+
+(* the text is reproduced when the numbers are spelled canonically *)
+Theorem display_make_error_canonical : forall m l c, 1 <= l -> l <= usize_max -> c <= usize_max ->
+  display (make_error (m ++ MARK ++ itoa l ++ COLM ++ itoa c)) = m ++ MARK ++ itoa l ++ COLM ++ itoa c.
+Proof.
+  intros m l c Hl1 Hl Hc.
+  pose proof (display_parse_roundtrip m l c Hl1 Hl Hc) as H. unfold display in H. cbn [e_line e_msg e_col] in H.
+  destruct (l =? 0) eqn:E; [lia|]. unfold make_error. rewrite H. unfold display. cbn [e_line e_msg e_col]. rewrite E. reflexivity.
+Qed.
+
+(* ---- position taken from the text of a custom message ------------------------------------------------------- *)
+Theorem make_error_suffix : forall m dl dc,
+  digits dl -> dl <> [] -> dval dl <= usize_max -> digits dc -> dc <> [] -> dval dc <= usize_max ->
+  make_error (m ++ MARK ++ dl ++ COLM ++ dc) = mkError m (dval dl) (dval dc).
+Proof.
+  intros m dl dc Hdl Hnl Hl Hdc Hnc Hc. unfold make_error.
+  assert (E : parse_line_col (m ++ MARK ++ dl ++ COLM ++ dc) = Some (dval dl, dval dc, m)).
+  { apply parse_line_col_iff. exists dl, dc. auto 10. }
+  rewrite E. reflexivity.
+Qed.
+
+(* custom_position_from_text: whoever controls the END of a custom message controls line()/column() of the error:
+   make_error takes the position from the text, cuts the suffix off the message, and (line >= 1) the deserializer's
+   fix_position keeps it.  With line 0 in the text the message is still cut, and fix_position then positions the
+   shortened message. *)
+Theorem custom_position_from_text : forall m dl dc (f : bytes -> error),
+  digits dl -> dl <> [] -> dval dl <= usize_max -> digits dc -> dc <> [] -> dval dc <= usize_max ->
+  let e := make_error (m ++ MARK ++ dl ++ COLM ++ dc) in
+  e = mkError m (dval dl) (dval dc)
+  /\ (1 <= dval dl -> fix_position e f = mkError m (dval dl) (dval dc))
+  /\ (dval dl = 0 -> fix_position e f = f m).
+Proof.
+  intros m dl dc f Hdl Hnl Hl Hdc Hnc Hc e. unfold e. rewrite (make_error_suffix m dl dc Hdl Hnl Hl Hdc Hnc Hc).
+  split; [reflexivity|]. unfold fix_position. cbn [e_line e_msg]. split.
+  - intros H1. destruct (dval dl =? 0) eqn:E; [lia|reflexivity].
+  - intros ->. reflexivity.
+Qed.
+
+(* and when there is nothing of the accepted form at the end, the error is unpositioned and fix_position applies *)
+Theorem custom_unpositioned : forall s f, parse_line_col s = None -> fix_position (make_error s) f = f s.
+Proof. intros s f H. unfold make_error. rewrite H. reflexivity. Qed.
+
+(* a visitor reporting  custom(format_args!("invalid id: {}", s))  for the input string  s = "x at line 7 column 3",
+   found, say, at line 1 column 25 of the JSON text:
+     message "invalid id: x", line() = 7, column() = 3, and to_string() = "invalid id: x at line 7 column 3" *)
+Definition ex_msg : bytes :=
+  [105;110;118;97;108;105;100;32;105;100;58;32;120] ++ MARK ++ [55] ++ COLM ++ [51].
+Example custom_position_from_text_example :
+  make_error ex_msg = mkError [105;110;118;97;108;105;100;32;105;100;58;32;120] 7 3
+  /\ fix_position (make_error ex_msg) (fun m => mkError m 1 25) = mkError [105;110;118;97;108;105;100;32;105;100;58;32;120] 7 3
+  /\ display (fix_position (make_error ex_msg) (fun m => mkError m 1 25)) = ex_msg.
+Proof. vm_compute. repeat split. Qed.
+(* leading zeros are accepted, a sign is not, line 0 cuts the message but leaves it unpositioned *)
+Example custom_spellings :
+  make_error ([120] ++ MARK ++ [48;48;55] ++ COLM ++ [48;51]) = mkError [120] 7 3
+  /\ make_error ([120] ++ MARK ++ [43;55] ++ COLM ++ [51]) = mkError ([120] ++ MARK ++ [43;55] ++ COLM ++ [51]) 0 0
+  /\ make_error ([120] ++ MARK ++ [48] ++ COLM ++ [51]) = mkError [120] 0 3
+  /\ make_error ([120] ++ MARK ++ [55] ++ COLM ++ [51] ++ MARK ++ [57] ++ COLM ++ [57])
+     = mkError ([120] ++ MARK ++ [55] ++ COLM ++ [51]) 9 9
+  /\ make_error ([120] ++ MARK ++ [55] ++ COLM ++ [51; 32]) = mkError ([120] ++ MARK ++ [55] ++ COLM ++ [51; 32]) 0 0
+  /\ make_error ([120] ++ MARK ++ COLM ++ [51]) = mkError ([120] ++ MARK ++ COLM ++ [51]) 0 0
+  /\ make_error ([120] ++ MARK ++ [49;56;52;52;54;55;52;52;48;55;51;55;48;57;53;53;49;54;49;54] ++ COLM ++ [51])
+     = mkError ([120] ++ MARK ++ [49;56;52;52;54;55;52;52;48;55;51;55;48;57;53;53;49;54;49;54] ++ COLM ++ [51]) 0 0.
+Proof. vm_compute. repeat split. Qed.
+
+(* ================================================================================================================ *)
+(* 5. when can a message end in an accepted suffix?                                                                 *)
+(* ================================================================================================================ *)
+(* a prefix never matters *)
+Theorem parse_line_col_prefix : forall a t l c m2, parse_line_col t = Some (l, c, m2) ->
+  parse_line_col (a ++ t) = Some (l, c, a ++ m2).
+Proof.
+  intros a t l c m2 H. apply parse_line_col_iff in H. destruct H as (dl & dc & -> & H).
+  apply parse_line_col_iff. exists dl, dc. split; [rewrite app_assoc; reflexivity|exact H].
+Qed.
+
+(* the bytes an accepted suffix is made of: digits and the letters of " at line " / " column " *)
+Definition sfx_byte (b : N) : bool := is_digit b || existsb (N.eqb b) MARK || existsb (N.eqb b) COLM.
+
+Lemma sfx_bytes : forall dl dc x, digits dl -> digits dc -> In x (MARK ++ dl ++ COLM ++ dc) -> sfx_byte x = true.
+Proof.
+  intros dl dc x Hdl Hdc Hin. unfold sfx_byte.
+  apply in_app_or in Hin. destruct Hin as [Hin|Hin].
+  { assert (E : existsb (N.eqb x) MARK = true) by (apply existsb_exists; exists x; split; [exact Hin|apply N.eqb_refl]).
+    rewrite E, orb_true_r. reflexivity. }
+  apply in_app_or in Hin. destruct Hin as [Hin|Hin].
+  { unfold digits in Hdl. rewrite forallb_forall in Hdl. rewrite (Hdl x Hin). reflexivity. }
+  apply in_app_or in Hin. destruct Hin as [Hin|Hin].
+  { assert (E : existsb (N.eqb x) COLM = true) by (apply existsb_exists; exists x; split; [exact Hin|apply N.eqb_refl]).
+    rewrite E, orb_true_r. reflexivity. }
+  unfold digits in Hdc. rewrite forallb_forall in Hdc. rewrite (Hdc x Hin). reflexivity.
+Qed.
+
+(* a byte that cannot be part of a suffix splits the question: everything up to and including it is irrelevant *)
+Theorem parse_line_col_foreign_byte : forall a b t l c m', sfx_byte b = false ->
+  parse_line_col (a ++ b :: t) = Some (l, c, m') ->
+  exists m2, m' = a ++ b :: m2 /\ parse_line_col t = Some (l, c, m2).
+Proof.
+  intros a b t l c m' Hb H. apply parse_line_col_iff in H. destruct H as (dl & dc & Hs & Hdl & Hrest).
+  pose proof Hrest as (_ & _ & _ & Hdc & _).
+  assert (Hnot : ~ In b (MARK ++ dl ++ COLM ++ dc)).
+  { intros Hin. rewrite (sfx_bytes dl dc b Hdl Hdc Hin) in Hb. discriminate. }
+  apply app_eq_app in Hs. destruct Hs as [l0 [[Ha Hsfx] | [Hm Ht]]].
+  - exfalso. apply Hnot. rewrite Hsfx. apply in_or_app. right. left. reflexivity.
+  - destruct l0 as [|b0 m2].
+    + exfalso. apply Hnot. cbn [app] in Ht. rewrite <- Ht. left. reflexivity.
+    + cbn [app] in Ht. injection Ht as <- Ht. exists m2. split; [exact Hm|].
+      apply parse_line_col_iff. exists dl, dc. split; [exact Ht|]. split; [exact Hdl|exact Hrest].
+Qed.
+
+(* an accepted string ends in a digit *)
+Theorem parse_line_col_last_not_digit : forall s b, is_digit b = false -> parse_line_col (s ++ [b]) = None.
+Proof.
+  intros s b Hb. destruct (parse_line_col (s ++ [b])) as [[[l c] m']|] eqn:E; [|reflexivity]. exfalso.
+  apply parse_line_col_sound in E. destruct E as (dl & dc & Hs & _ & _ & _ & _ & Hdc & Hnc & _).
+  destruct (exists_last Hnc) as (dc' & b' & ->).
+  replace (m' ++ MARK ++ dl ++ COLM ++ dc' ++ [b']) with ((m' ++ MARK ++ dl ++ COLM ++ dc') ++ [b']) in Hs
+    by (rewrite <- !app_assoc; reflexivity).
+  apply app_inj_tail in Hs. destruct Hs as [_ ->].
+  apply digits_app in Hdc. destruct Hdc as [_ Hb']. apply digits_cons in Hb'. destruct Hb' as [Hb' _]. congruence.
+Qed.
+
+(* serde's messages built by serde_json (error.rs 440-455) and serde's defaults:
+     "invalid type: {unexp}, expected {exp}"   "invalid value: {unexp}, expected {exp}"   "invalid length {n}, expected {exp}"
+     "unknown variant `{v}`, expected {one of ...}"   "unknown field `{f}`, expected {one of ...}"
+   All user data ({unexp}, {v}, {f}) sits BEFORE ", expected "; since 'd' is not a suffix byte, whether the message is
+   taken for a positioned one depends on the text after "expected" alone, i.e. on the Visitor's `expecting` / the static
+   name list — never on the input. *)
+Definition EXPECTED : bytes := [44;32;101;120;112;101;99;116;101;100;32].       (* ", expected " *)
+Definition EXPECTED_ : bytes := [44;32;101;120;112;101;99;116;101;100].         (* ", expected" *)
+
+Theorem serde_expected_tail : forall pre E l c m',
+  parse_line_col (pre ++ EXPECTED ++ E) = Some (l, c, m') <->
+  exists m2, m' = pre ++ EXPECTED_ ++ m2 /\ parse_line_col (32 :: E) = Some (l, c, m2).
+Proof.
+  intros pre E l c m'.
+  assert (Heq : pre ++ EXPECTED ++ E = (pre ++ [44;32;101;120;112;101;99;116;101]) ++ 100 :: 32 :: E).
+  { rewrite <- app_assoc. reflexivity. }
+  split.
+  - intros H. rewrite Heq in H. apply parse_line_col_foreign_byte in H; [|reflexivity].
+    destruct H as (m2 & Hm & Hp). exists m2. split; [|exact Hp]. rewrite Hm, <- app_assoc. reflexivity.
+  - intros (m2 & -> & Hp). replace (pre ++ EXPECTED ++ E) with ((pre ++ EXPECTED_) ++ 32 :: E) by (rewrite <- app_assoc; reflexivity).
+    rewrite (parse_line_col_prefix _ _ _ _ _ Hp), <- app_assoc. reflexivity.
+Qed.
+
+Corollary serde_expected_unpositioned : forall pre E, parse_line_col (32 :: E) = None ->
+  make_error (pre ++ EXPECTED ++ E) = mkError (pre ++ EXPECTED ++ E) 0 0.
+Proof.
+  intros pre E H. unfold make_error.
+  destruct (parse_line_col (pre ++ EXPECTED ++ E)) as [[[l c] m']|] eqn:Ep; [|reflexivity]. exfalso.
+  apply serde_expected_tail in Ep. destruct Ep as (m2 & _ & Hp). congruence.
+Qed.
+
+(* messages that end in a back-quote ("missing field `f`", "duplicate field `f`", "unknown variant `v`, expected `a` or `b`",
+   "... expected one of `a`, `b`") or in any other non-digit are never positioned from their text *)
+Corollary ends_in_backquote_unpositioned : forall s, make_error (s ++ [96]) = mkError (s ++ [96]) 0 0.
+Proof. intros s. unfold make_error. rewrite (parse_line_col_last_not_digit s 96 eq_refl). reflexivity. Qed.
+
+(* `invalid type: string "x at line 7 column 3", expected a string` — the quoted input is followed by serde's tail *)
+Example serde_invalid_type_example :
+  let E := [97;32;115;116;114;105;110;103] in                      (* "a string" *)
+  forall pre, make_error (pre ++ EXPECTED ++ E) = mkError (pre ++ EXPECTED ++ E) 0 0.
+Proof. intros E pre. apply serde_expected_unpositioned. vm_compute. reflexivity. Qed.
+(* ... whereas an `expecting` text that itself reads "at line 1 column 2" would do it (a property of the program) *)
+Example serde_expecting_example :
+  let E := [97;116;32;108;105;110;101;32;49;32;99;111;108;117;109;110;32;50] in
+  forall pre, make_error (pre ++ EXPECTED ++ E) = mkError (pre ++ EXPECTED_) 1 2.
+Proof.
+  intros E pre. unfold make_error.
+  assert (H : parse_line_col (pre ++ EXPECTED ++ E) = Some (1, 2, pre ++ EXPECTED_ ++ [])).
+  { apply serde_expected_tail. exists []. split; [reflexivity|]. vm_compute. reflexivity. }
+  rewrite H, app_nil_r. reflexivity.
+Qed.
+
+(* ================================================================================================================ *)
+(* 6. no slice of parse_line_col panics on a String; the checked model computes parse_line_col                      *)
+(* ================================================================================================================ *)
+Lemma utf8_head_not_cont : forall y r, utf8_valid (y :: r) = true -> in_rng y 128 191 = false.
+Proof.
+  intros y r H. apply utf8_valid_U8 in H. inversion H as [|b0 r0 Hb _|b0 b1 r0 Hs _|b0 b1 b2 r0 Hs _|b0 b1 b2 b3 r0 Hs _]; subst;
+    unfold seq2, seq3, seq4, is_cont, in_rng in *; lia.
+Qed.
+
+Lemma skipn_cons_nth {A} : forall e (s : list A) c r, skipn e s = c :: r -> nth_error s e = Some c /\ skipn (S e) s = r.
+Proof.
+  induction e as [|e IH]; intros s c r H.
+  - cbn [skipn] in H. subst s. split; reflexivity.
+  - destruct s as [|x s]; [discriminate|]. cbn [skipn] in H. destruct (IH s c r H) as [H1 H2]. split; [exact H1|exact H2].
+Qed.
+
+Lemma nth_error_skipn {A} : forall n k (l : list A), nth_error (skipn n l) k = nth_error l (n + k).
+Proof.
+  induction n as [|n IH]; intros k l; [reflexivity|]. destruct l as [|x l]; [destruct k; reflexivity|]. cbn [skipn Nat.add nth_error]. apply IH.
+Qed.
+
+(* the byte index after an ASCII byte is a char boundary *)
+Lemma boundary_after_ascii : forall s j x, utf8_valid s = true -> nth_error s j = Some x -> x < 128 ->
+  is_char_boundary s (S j) = true.
+Proof.
+  intros s j x Hv Hn Hx. destruct (nth_error_split s j Hn) as (l1 & l2 & Hs & Hlen).
+  subst s. destruct (utf8_valid_cut l1 x l2 Hx Hv) as [_ Hv2].
+  unfold is_char_boundary.
+  replace (nth_error (l1 ++ x :: l2) (S j)) with (nth_error l2 O).
+  - destruct l2 as [|y l3]; cbn [nth_error].
+    + rewrite app_length. cbn [length]. apply Nat.eqb_eq. lia.
+    + rewrite (utf8_head_not_cont y l3 Hv2). reflexivity.
+  - rewrite nth_error_app2 by lia. replace (S j - length l1)%nat with 1%nat by lia. reflexivity.
+Qed.
+
+(* the while loop *)
+Lemma scan_digits_chk_ok : forall msg, utf8_valid msg = true -> forall fuel e,
+  is_char_boundary msg e = true -> (length msg < e + fuel)%nat ->
+  scan_digits_chk fuel msg e = Ok (e + count_digits (skipn e msg))%nat
+  /\ is_char_boundary msg (e + count_digits (skipn e msg)) = true.
+Proof.
+  intros msg Hv. induction fuel as [|f IH]; intros e Hb Hf.
+  - (* e > length msg: not a boundary *)
+    exfalso. unfold is_char_boundary in Hb. destruct e as [|e]; [lia|].
+    destruct (nth_error msg (S e)) eqn:En.
+    + assert (S e < length msg)%nat by (apply nth_error_Some; congruence). lia.
+    + apply Nat.eqb_eq in Hb. lia.
+  - cbn [scan_digits_chk]. unfold slice_from. rewrite Hb. cbn [bind].
+    destruct (skipn e msg) as [|c r] eqn:Es.
+    + cbn [starts_with_digit count_digits]. rewrite Nat.add_0_r. split; [reflexivity|exact Hb].
+    + destruct (skipn_cons_nth e msg c r Es) as [Hn Hr].
+      cbn [starts_with_digit count_digits]. destruct ((48 <=? c) && (c <=? 57)) eqn:Ed.
+      * assert (Hb' : is_char_boundary msg (S e) = true) by (apply (boundary_after_ascii msg e c Hv Hn); lia).
+        assert (He : (e < length msg)%nat) by (apply nth_error_Some; congruence).
+        destruct (IH (S e) Hb' ltac:(lia)) as [H1 H2]. rewrite Hr in H1, H2.
+        replace (e + S (count_digits r))%nat with (S e + count_digits r)%nat by lia. split; assumption.
+      * rewrite Nat.add_0_r. split; [reflexivity|exact Hb].
+Qed.
+
+Lemma rfind_some_ex : forall s i, rfind s MARK = Some i -> exists a b, s = a ++ MARK ++ b /\ i = length a.
+Proof.
+  intros s i H. unfold rfind in H. destruct (rfind_aux_some _ _ _ _ H) as (a & b & Hs & Hi & _).
+  exists a, b. split; [exact Hs|exact Hi].
+Qed.
+
+Lemma boundary_at_space : forall s i, nth_error s i = Some 32 -> is_char_boundary s i = true.
+Proof. intros s i H. unfold is_char_boundary. destruct i; [reflexivity|]. rewrite H. reflexivity. Qed.
+
+Theorem parse_line_col_chk_no_panic : forall s, utf8_valid s = true -> parse_line_col_chk s = Ok (parse_line_col s).
+Proof.
+  intros s Hv. unfold parse_line_col_chk, parse_line_col.
+  destruct (rfind s MARK) as [i|] eqn:Hr; [|reflexivity].
+  destruct (rfind_some_ex s i Hr) as (a & b & Hs & Hi).
+  (* bytes of the marker *)
+  assert (Hn0 : nth_error s i = Some 32).
+  { rewrite Hs, Hi, nth_error_app2 by lia. rewrite Nat.sub_diag. reflexivity. }
+  assert (Hn8 : nth_error s (i + 8) = Some 32).
+  { rewrite Hs, Hi, nth_error_app2 by lia. replace (length a + 8 - length a)%nat with 8%nat by lia. reflexivity. }
+  assert (Hlen : (i + 9 <= length s)%nat).
+  { rewrite Hs, Hi, !app_length. cbn [length MARK]. lia. }
+  change (length MARK) with 9%nat. change (length COLM) with 8%nat.
+  (* start_of_line *)
+  assert (Hb1 : is_char_boundary s (i + 9) = true).
+  { replace (i + 9)%nat with (S (i + 8)) by lia. apply (boundary_after_ascii s (i + 8) 32 Hv Hn8). lia. }
+  destruct (scan_digits_chk_ok s Hv (S (length s)) (i + 9) Hb1 ltac:(lia)) as [Hscan1 Hb2].
+  rewrite Hscan1. cbn [bind].
+  set (eol := (i + 9 + count_digits (skipn (i + 9) s))%nat) in *.
+  unfold slice_from at 1. rewrite Hb2. cbn [bind].
+  destruct (starts_with (skipn eol s) COLM) eqn:Hc; cbn [negb]; [|reflexivity].
+  (* start_of_column *)
+  assert (Hn7 : nth_error s (eol + 7) = Some 32).
+  { rewrite <- nth_error_skipn. rewrite (starts_with_true _ _ Hc). reflexivity. }
+  assert (Hb3 : is_char_boundary s (eol + 8) = true).
+  { replace (eol + 8)%nat with (S (eol + 7)) by lia. apply (boundary_after_ascii s (eol + 7) 32 Hv Hn7). lia. }
+  destruct (scan_digits_chk_ok s Hv (S (length s)) (eol + 8) Hb3 ltac:(lia)) as [Hscan2 Hb4].
+  rewrite Hscan2. cbn [bind].
+  set (eoc := (eol + 8 + count_digits (skipn (eol + 8) s))%nat) in *.
+  destruct (eoc <? length s)%nat eqn:Hlt; [reflexivity|].
+  (* the two number slices *)
+  unfold slice. rewrite Hb1, Hb2, Hb3, Hb4.
+  assert (Hle1 : (i + 9 <=? eol)%nat = true) by (apply Nat.leb_le; unfold eol; lia).
+  assert (Hle2 : (eol + 8 <=? eoc)%nat = true) by (apply Nat.leb_le; unfold eoc; lia).
+  rewrite Hle1, Hle2. cbn [andb bind].
+  destruct (usize_from_str (firstn (eol - (i + 9)) (skipn (i + 9) s))) as [line|]; [|reflexivity].
+  destruct (usize_from_str (firstn (eoc - (eol + 8)) (skipn (eol + 8) s))) as [column|]; [|reflexivity].
+  (* truncate *)
+  unfold truncate. assert (Hle3 : (i <=? length s)%nat = true) by (apply Nat.leb_le; lia).
+  rewrite Hle3, (boundary_at_space s i Hn0). reflexivity.
+Qed.
+
+Corollary make_error_chk_no_panic : forall s, utf8_valid s = true -> make_error_chk s = Ok (make_error s).
+Proof.
+  intros s Hv. unfold make_error_chk, make_error. rewrite (parse_line_col_chk_no_panic s Hv). cbn [bind].
+  destruct (parse_line_col s) as [[[l c] m]|]; reflexivity.
+Qed.
+
+(* the checks are not vacuous: on a byte string that is NOT UTF-8 the literal code would slice inside a character *)
+Example chk_panics_on_non_utf8 : parse_line_col_chk (MARK ++ [191]) = Panic.
+Proof. vm_compute. reflexivity. Qed.
+
+(* make_error keeps Strings Strings: the truncated message is valid UTF-8 *)
+Theorem make_error_utf8 : forall s, utf8_valid s = true -> utf8_valid (e_msg (make_error s)) = true.
+Proof.
+  intros s Hv. unfold make_error. destruct (parse_line_col s) as [[[l c] m]|] eqn:E; cbn [e_msg]; [|exact Hv].
+  apply parse_line_col_sound in E. destruct E as (dl & dc & Hs & _). rewrite Hs in Hv.
+  change (MARK ++ dl ++ COLM ++ dc) with (32 :: ([97;116;32;108;105;110;101;32] ++ dl ++ COLM ++ dc)) in Hv.
+  apply utf8_valid_cut in Hv; [|lia]. apply Hv.
+Qed.
+
+(* ================================================================================================================ *)
+Print Assumptions parse_line_col_chk_no_panic.
+Print Assumptions make_error_chk_no_panic.
+Print Assumptions make_error_utf8.
+Print Assumptions usize_from_str_digits.
+Print Assumptions parse_line_col_shape.
+Print Assumptions parse_line_col_sound.
+Print Assumptions parse_line_col_iff.
+Print Assumptions parse_line_col_none_if_no_marker.
+Print Assumptions display_parse_roundtrip.
+Print Assumptions make_error_display.
+Print Assumptions make_error_display_line0_iff.
+Print Assumptions display_make_error_canonical.
+Print Assumptions custom_position_from_text.
+Print Assumptions custom_unpositioned.
+Print Assumptions parse_line_col_prefix.
+Print Assumptions parse_line_col_foreign_byte.
+Print Assumptions parse_line_col_last_not_digit.
+Print Assumptions serde_expected_tail.
+Print Assumptions serde_expected_unpositioned.
